@@ -2711,8 +2711,25 @@ func _return(n *node) {
 	}
 }
 
-func arrayLit(n *node) {
+// literalDest returns the function storing the value of the composite literal n: in
+// the frame location of n, or in a new variable when the address of the literal is
+// taken, as each evaluation of &T{...} creates a new variable.
+func literalDest(n *node) func(*frame, reflect.Value) {
 	value := valueGenerator(n, n.findex)
+	if n.anc == nil || n.anc.kind != addressExpr {
+		return func(f *frame, v reflect.Value) { value(f).Set(v) }
+	}
+	i, l := n.findex, n.level
+	typ := n.typ.frameType()
+	return func(f *frame, v reflect.Value) {
+		d := reflect.New(typ).Elem()
+		d.Set(v)
+		getFrame(f, l).data[i] = d
+	}
+}
+
+func arrayLit(n *node) {
+	store := literalDest(n)
 	next := getExec(n.tnext)
 	child := n.child
 	if n.nleft == 1 {
@@ -2750,13 +2767,13 @@ func arrayLit(n *node) {
 		for i, v := range values {
 			a.Index(index[i]).Set(v(f))
 		}
-		value(f).Set(a)
+		store(f, a)
 		return next
 	}
 }
 
 func mapLit(n *node) {
-	value := valueGenerator(n, n.findex)
+	store := literalDest(n)
 	next := getExec(n.tnext)
 	child := n.child
 	if n.nleft == 1 {
@@ -2775,13 +2792,13 @@ func mapLit(n *node) {
 		for i, k := range keys {
 			m.SetMapIndex(k(f), values[i](f))
 		}
-		value(f).Set(m)
+		store(f, m)
 		return next
 	}
 }
 
 func compositeBinMap(n *node) {
-	value := valueGenerator(n, n.findex)
+	store := literalDest(n)
 	next := getExec(n.tnext)
 	child := n.child
 	if n.nleft == 1 {
@@ -2807,13 +2824,13 @@ func compositeBinMap(n *node) {
 		for i, k := range keys {
 			m.SetMapIndex(k(f), values[i](f))
 		}
-		value(f).Set(m)
+		store(f, m)
 		return next
 	}
 }
 
 func compositeBinSlice(n *node) {
-	value := valueGenerator(n, n.findex)
+	store := literalDest(n)
 	next := getExec(n.tnext)
 	child := n.child
 	if n.nleft == 1 {
@@ -2853,7 +2870,7 @@ func compositeBinSlice(n *node) {
 		for i, v := range values {
 			a.Index(index[i]).Set(v(f))
 		}
-		value(f).Set(a)
+		store(f, a)
 		return next
 	}
 }
